@@ -4,7 +4,7 @@
    sync_revision_claims. *)
 From MC Require Import Generated.
 From MC Require Import Model.Rolling Model.Safe.
-From MC Require Import Proofs.C06Proofs Proofs.C04Proofs Proofs.RollCalls.
+From MC Require Import Proofs.C06Proofs Proofs.C04Proofs Proofs.RollCalls Proofs.RollClaims Proofs.RollMoves.
 From Coq Require Import Lia.
 Local Open Scope string_scope.
 Local Open Scope list_scope.
@@ -472,6 +472,321 @@ Proof.
   apply Hpost. exact Hf.
 Qed.
 
+(* ================================================================== *)
+(* 1'. before the first hook call: only GETs, the finalizer edit,       *)
+(*     ownership edits, and the claiming of ControllerRevisions         *)
+(* ================================================================== *)
+
+(* whole-sync form of C09_prelude_updates_are_ownership_edits: as long as no hook has been
+   called, a call is a hook call, a request of the revision-claiming step (rev_res, or the
+   adoption GET of the parent), or a prelude_call: a GET, the finalizer VUpdate of the
+   parent, or a VUpdate of an object of a child resource whose body is
+   [set_owner_refs cur refs] — an adoption or a release by claim_one. *)
+Definition C09_before_hooks_phi (c : ccfg) (h : hist) (cl : call) : Prop :=
+  has_hook h = false -> is_hook_call cl = true \/ revphase_api_call c cl \/ prelude_call c cl.
+
+Lemma has_hook_cons cl a h : has_hook ((cl, a) :: h) = is_hook_call cl || has_hook h.
+Proof. reflexivity. Qed.
+
+(* a phase all of whose calls are allowed; the hooks seen so far stay seen *)
+Lemma phase_allowed {R} c (P : call -> Prop) (X : Prop) (p : prog R) h :
+  all_calls P p ->
+  (forall cl, P cl -> is_hook_call cl = true \/ revphase_api_call c cl \/ prelude_call c cl) ->
+  (X -> has_hook h = true) ->
+  hist_post (C09_before_hooks_phi c) (fun h' _ => X -> has_hook h' = true) h p.
+Proof.
+  intros Hp HP Hh.
+  apply (hist_post_of_all_calls P (fun h' => X -> has_hook h' = true)); try assumption.
+  - intros h0 cl a Hh0 _ Hx. rewrite has_hook_cons, (Hh0 Hx). apply Bool.orb_true_r.
+  - intros h0 cl _ Hcl _. apply HP. exact Hcl.
+Qed.
+
+(* a phase entered after a hook call: anything goes *)
+Lemma phase_after_hook {R} c (P : call -> Prop) (p : prog R) h :
+  all_calls P p -> has_hook h = true ->
+  hist_post (C09_before_hooks_phi c) (fun h' _ => has_hook h' = true) h p.
+Proof.
+  intros Hp Hh.
+  apply (hist_post_of_all_calls P (fun h' => has_hook h' = true)); try assumption.
+  - intros h0 cl a Hh0 _. rewrite has_hook_cons, Hh0. apply Bool.orb_true_r.
+  - intros h0 cl Hh0 _ Hno. congruence.
+Qed.
+
+Lemma hookphase_allowed c cl :
+  hookphase_call c cl -> is_hook_call cl = true \/ revphase_api_call c cl \/ prelude_call c cl.
+Proof. intros [(hk & b & -> & _)|H]; [left; reflexivity|right; left; exact H]. Qed.
+
+Definition resp_needs_hook (h : hist) (hr : hook_result) : Prop :=
+  forall r, hr = HRResp r -> has_hook h = true.
+
+Lemma call_hook_before c parent observed related h :
+  hist_post (C09_before_hooks_phi c) (fun h' hr => has_hook h' = true \/ hr = HRNone) h
+            (call_hook c parent observed related).
+Proof.
+  unfold call_hook. cbv zeta.
+  destruct (negb (has_finalize c && (is_deleting parent || negb (sel_matches (p_selector c) (get_labels parent))))
+            && negb (has_sync c)); [apply HP_ret; right; reflexivity|].
+  apply HP_do; [intros _; left; reflexivity|].
+  intros a. destruct a as [o|e|body| |z]; try (apply HP_ret; left; reflexivity).
+  destruct (decode_composite body); apply HP_ret; left; reflexivity.
+Qed.
+
+Lemma call_hooks_before c observed related p ps h :
+  hist_post (C09_before_hooks_phi c)
+            (fun h' rs => has_hook h' = true \/ exists pr, In pr rs /\ snd pr = HRNone) h
+            (call_hooks c observed related (p :: ps)).
+Proof.
+  unfold call_hooks. cbn [mapM].
+  apply hist_post_bind with (Q := fun h' (b : prev * hook_result) => has_hook h' = true \/ snd b = HRNone).
+  - eapply hist_post_bind; [apply call_hook_before|].
+    intros h1 r H1. apply HP_ret. exact H1.
+  - intros h1 b H1.
+    apply hist_post_bind with (Q := fun h' (_ : list (prev * hook_result)) => has_hook h1 = true -> has_hook h' = true).
+    + apply (phase_allowed c (hookphase_call c)); [apply call_hooks_calls|apply hookphase_allowed|auto].
+    + intros h2 rs H2. apply HP_ret. destruct H1 as [H1|H1]; [left; auto|].
+      right. exists b. split; [now left|exact H1].
+Qed.
+
+Lemma first_hook_failure_none answers pr :
+  first_hook_failure answers = None -> In pr answers -> snd pr <> HRNone.
+Proof.
+  unfold first_hook_failure.
+  destruct (find (fun pr => match snd pr with HRResp _ => false | _ => true end) answers) as [[p0 r0]|] eqn:Hf;
+    [discriminate|].
+  intros _ Hin Hn. eapply find_none in Hf; [|exact Hin]. cbv beta in Hf. rewrite Hn in Hf. discriminate.
+Qed.
+
+Lemma sync_revisions_rolling_before c k parent observed related h :
+  hist_post (C09_before_hooks_phi c) resp_needs_hook h (sync_revisions_rolling c k parent observed related).
+Proof.
+  unfold sync_revisions_rolling.
+  assert (Hvac : forall h', hist_post (C09_before_hooks_phi c) resp_needs_hook h' (Ret HRErr)).
+  { intros h'. apply HP_ret. intros r Hr. discriminate. }
+  apply hist_post_bind with (Q := fun _ _ => True).
+  { eapply hist_post_weaken;
+      [| |apply (phase_allowed c (revphase_api_call c) False); [apply claim_revisions_calls| |tauto]].
+    - intros h0 cl H. exact H.
+    - auto.
+    - intros cl H. right. left. exact H. }
+  intros h1 oc _. destruct oc as [claimed|]; [|apply Hvac]. cbv zeta.
+  destruct (make_patch (obj_map parent) (field_paths c) []) as [latest_patch|]; [|apply Hvac].
+  match goal with |- hist_post _ _ _ (match ?X with _ => _ end) => destruct X as [[latest_rev olds]|] end;
+    [|apply Hvac].
+  match goal with |- hist_post _ _ _ (match ?X with _ => _ end) => destruct X as [lrev|] end;
+    [|apply Hvac].
+  eapply hist_post_bind; [apply call_hooks_before|].
+  intros h2 answers Hans. cbv beta in Hans.
+  destruct (first_hook_failure answers) as [r|] eqn:Hff.
+  { unfold first_hook_failure in Hff.
+    destruct (find (fun pr => match snd pr with HRResp _ => false | _ => true end) answers) as [[p0 r0]|] eqn:Hf;
+      [|discriminate].
+    injection Hff as <-. apply find_some in Hf. destruct Hf as [_ Hf]. cbn [snd] in Hf.
+    destruct r0; try (apply HP_ret; intros r Hr; discriminate). discriminate. }
+  assert (Hh2 : has_hook h2 = true).
+  { destruct Hans as [H|(pr & Hin & Hn)]; [exact H|].
+    exfalso. eapply first_hook_failure_none; eauto. }
+  match goal with |- hist_post _ _ _ (match ?X with _ => _ end) => destruct X as [[prs2 st]|] end;
+    [|apply Hvac].
+  eapply hist_post_bind; [apply (phase_after_hook c rev_write_call); [apply manage_revisions_calls|exact Hh2]|].
+  intros h3 ok Hh3. cbv beta in Hh3.
+  destruct (negb ok); [apply Hvac|].
+  destruct (prune prs2); [apply Hvac|]. apply HP_ret. intros r _. exact Hh3.
+Qed.
+
+Lemma hook_phase_rolling_before c k parent observed related h :
+  hist_post (C09_before_hooks_phi c) resp_needs_hook h (hook_phase_rolling c k parent observed related).
+Proof.
+  unfold hook_phase_rolling.
+  destruct (negb (any_rolling c) || (is_deleting parent && negb (should_finalize c parent))).
+  - eapply hist_post_weaken; [| |apply call_hook_before].
+    + intros h0 cl H. exact H.
+    + intros h0 hr [H | ->] r Hr; [exact H|discriminate].
+  - apply sync_revisions_rolling_before.
+Qed.
+
+Theorem C09_only_ownership_edits_before_hooks_gen c k parent h :
+  hist_post (C09_before_hooks_phi c) (fun _ _ => True) h (sync_parent_object_r c k parent).
+Proof.
+  unfold sync_parent_object_r.
+  destruct (ignores_parent c parent); [apply HP_ret; exact I|].
+  apply hist_post_bind with (Q := fun _ _ => True).
+  { eapply hist_post_weaken;
+      [| |apply (phase_allowed c (prelude_call c) False); [apply sync_finalizer_calls| |tauto]]; auto. }
+  intros h1 fr _. destruct fr as [parent1|e]; [|apply HP_ret; exact I].
+  destruct (ignores_parent c parent1); [apply HP_ret; exact I|].
+  apply hist_post_bind with (Q := fun _ _ => True).
+  { eapply hist_post_weaken;
+      [| |apply (phase_allowed c (prelude_call c) False); [apply claim_children_calls| |tauto]]; auto. }
+  intros h2 oc _. destruct oc as [observed|]; [|apply HP_ret; exact I].
+  unfold related_phase. cbn [bind].
+  eapply hist_post_bind; [apply hook_phase_rolling_before|].
+  intros h3 hr Hhr. destruct hr as [| |n|r]; try (apply HP_ret; exact I).
+  eapply hist_post_weaken;
+    [| |apply (phase_after_hook c (finish_call c)); [apply finish_sync_calls|apply (Hhr r eq_refl)]]; auto.
+Qed.
+
+Theorem C09_only_ownership_edits_before_hooks c k parent :
+  forall G, safe G (C09_before_hooks_phi c) [] (sync_parent_object_r c k parent).
+Proof. intros G. eapply hist_post_safe. apply C09_only_ownership_edits_before_hooks_gen. Qed.
+
+(* read on requests: a VUpdate issued before the first hook call on a resource other than
+   the parent's and ControllerRevision is an ownership edit of an object of a child resource *)
+Corollary C09_updates_before_hooks_are_ownership_edits c k parent (e : env) post q a pre :
+  fst (run (sync_parent_object_r c k parent) e []) = post ++ (CApi q, a) :: pre ->
+  has_hook pre = false -> q_verb q = VUpdate -> q_res q <> rev_res -> q_res q <> p_res c ->
+  exists kc cur refs, In kc (kids c) /\ q_res q = ch_res kc /\ q_body q = set_owner_refs cur refs.
+Proof.
+  intros Heq Hno Hv Hr Hp.
+  pose proof (C09_only_ownership_edits_before_hooks_gen c k parent []) as Hs.
+  apply hist_post_run with (e := e) in Hs. destruct Hs as [_ (new & Hnew & Hall)].
+  rewrite app_nil_r in Hnew. rewrite Hnew in Heq. specialize (Hall post (CApi q) a pre Heq).
+  rewrite app_nil_r in Hall. destruct (Hall Hno) as [H|[(q' & Hq' & H)|(q' & Hq' & H)]].
+  - discriminate.
+  - injection Hq' as <-. destruct H as [H|[H1 H2]]; [contradiction|]. rewrite Hv in H2. discriminate.
+  - injection Hq' as <-. destruct H as [H|[[_ H]|[_ (kc & cur & refs & H)]]].
+    + rewrite Hv in H. discriminate.
+    + contradiction.
+    + exists kc, cur, refs. exact H.
+Qed.
+
+(* ================================================================== *)
+(* 3. which revision lists which child                                 *)
+(* ================================================================== *)
+
+(* (a) what sync_revision_claims establishes, starting from no claims: every key is
+   recorded once; its claimant is a revision of the list and that revision still lists
+   the key; every listed key that the latest revision desires has a claimant; the
+   returned revisions keep only rolling groups of the originals, unfiltered. *)
+Theorem C09_claims_after_sync_revision_claims c ds prs prs' cl' :
+  sync_revision_claims c ds 0 prs [] = (prs', cl') ->
+  NoDup (map fst cl') /\
+  List.length prs' = List.length prs /\
+  (forall k j, claimant cl' k = Some j ->
+     exists p', nth_error prs' j = Some p' /\ lists (pr_rev p') k = true) /\
+  (forall p' g kd n, In p' prs' -> lists (pr_rev p') (g, kd, n) = true ->
+     find_desired ds g kd n <> None -> claimant cl' (g, kd, n) <> None) /\
+  (forall m p', nth_error prs' m = Some p' ->
+     exists p, nth_error prs m = Some p /\
+       forall ck, In ck (rev_children (pr_rev p')) ->
+                  In ck (rev_children (pr_rev p)) /\ is_rolling c (ck_group ck) (ck_kind ck) = true).
+Proof.
+  intros Hs. apply sync_revision_claims_ok in Hs. destruct Hs as [Sl Ss Sm Sn Sc Snd].
+  split; [apply Snd; constructor|]. split; [exact Sl|]. split; [|split; [exact Sc|]].
+  - intros k j Hk. destruct (Sn k j Hk) as [H|(_ & _ & p' & Hp & Hl)]; [discriminate|].
+    rewrite Nat.sub_0_r in Hp. eauto.
+  - intros m p' Hm. destruct (Ss m p' Hm) as (p & Hp & _ & _ & _ & _ & _ & Hsub). eauto.
+Qed.
+
+(* the first revision in the list wins: an existing claimant is never changed *)
+Theorem C09_first_claimant_wins c ds i prs cl prs' cl' k j :
+  sync_revision_claims c ds i prs cl = (prs', cl') -> claimant cl k = Some j -> claimant cl' k = Some j.
+Proof. intros Hs. apply sync_revision_claims_ok in Hs. apply (sc_mono _ _ _ _ _ _ _ Hs). Qed.
+
+(* FINDING (counterexample to "each name is listed by at most one revision afterwards"):
+   claims_of_revision keeps a child-kind group unfiltered as soon as one of its names
+   survives.  The latest revision r0 lists Thing [a]; the older r1 lists Thing [a; b]; the
+   hook desires a and b.  r0 claims a, r1 claims b and keeps its whole group: a is now
+   listed by both revisions although its claimant is r0. *)
+Definition cx9_cfg : ccfg :=
+  mkCfg "cc" "v1" "Parent" "parents" true true true (SelReqs [])
+        [mkChild "v1" "things" "Thing" true method_rolling_recreate] true false
+        [mkChild "v1" "things" "Thing" true method_rolling_recreate] false false [["spec"]] [].
+Definition cx9_thing (n : string) : json :=
+  JObj [("apiVersion", JStr "v1"); ("kind", JStr "Thing"); ("metadata", JObj [("name", JStr n)])].
+Definition cx9_ds : dlist := [("v1", "Thing", "a", cx9_thing "a"); ("v1", "Thing", "b", cx9_thing "b")].
+Definition cx9_revobj (n : string) : json := JObj [("metadata", JObj [("name", JStr n)])].
+Definition cx9_r0 : revision := mkRevision (cx9_revobj "r0") (JObj []) [mkRck "" "Thing" ["a"]].
+Definition cx9_r1 : revision := mkRevision (cx9_revobj "r1") (JObj []) [mkRck "" "Thing" ["a"; "b"]].
+Definition cx9_resp : hook_resp := mkHR JNull [Some (cx9_thing "a"); Some (cx9_thing "b")] JNull false.
+Definition cx9_prs : list prev := [mkPrev JNull cx9_r0 cx9_resp cx9_ds; mkPrev JNull cx9_r1 cx9_resp cx9_ds].
+Definition cx9_live (n : string) : json := JObj (set_last_applied (obj_map (cx9_thing n)) (cx9_thing n)).
+Definition cx9_observed : umap := [("v1", "Thing", [("a", cx9_live "a"); ("b", cx9_live "b")])].
+
+Example C09_claims_not_exclusive :
+  let '(prs', cl') := sync_revision_claims cx9_cfg cx9_ds 0 cx9_prs [] in
+  claimant cl' ("", "Thing", "a") = Some 0 /\
+  claimant cl' ("", "Thing", "b") = Some 1 /\
+  map (fun p => rev_children (pr_rev p)) prs' =
+    [[mkRck "" "Thing" ["a"]]; [mkRck "" "Thing" ["a"; "b"]]] /\
+  count_listing prs' ("", "Thing", "a") = 2.
+Proof. vm_compute. repeat split. Qed.
+
+(* ... and it survives the whole step: both children are live and up to date, the rollout
+   is reported complete, b moves to r0 for free, and r1 is kept by prune because it still
+   lists a.  (The next sync drops it: r0 then claims both names.) *)
+Example C09_stale_listing_survives_sync :
+  exists prs2,
+    sync_rolling_update cx9_cfg "" cx9_observed cx9_prs = Some (prs2, RComplete) /\
+    map (fun p => rev_children (pr_rev p)) (prune prs2) =
+      [[mkRck "" "Thing" ["a"; "b"]]; [mkRck "" "Thing" ["a"]]] /\
+    count_listing (prune prs2) ("", "Thing", "a") = 2.
+Proof. eexists. vm_compute. repeat split. Qed.
+
+(* (b) what is true.  Original wording: "for the revisions that sync_rolling_update + prune
+   produce, every claim key of a rolling kind occurs in the children of at most one
+   revision, provided it occurred in at most one after sync_revision_claims".  This holds
+   with one more proviso (boolean): after sync_revision_claims no revision lists a
+   (group, kind) twice or a name twice within a group — remove_child removes one
+   occurrence only. *)
+Definition all_simple (prs : list prev) : bool := forallb (fun p => simple (pr_rev p)) prs.
+
+Theorem C09_revision_names_unique_claim_partial c pns observed latest rest prs2 st :
+  sync_rolling_update c pns observed (latest :: rest) = Some (prs2, st) ->
+  let prs1 := fst (sync_revision_claims c (pr_desired latest) 0 (latest :: rest) []) in
+  all_simple prs1 = true ->
+  (forall k, count_listing prs1 k <= 1) ->
+  forall k, count_listing (prune prs2) k <= 1.
+Proof.
+  intros Hsync. unfold sync_rolling_update in Hsync.
+  destruct (sync_revision_claims c (pr_desired latest) 0 (latest :: rest) []) as [prs1 cl1] eqn:Hc.
+  cbn [fst]. intros Hsimple Hcount k.
+  destruct (first_pass c pns observed prs1 cl1) as [prsA clA] eqn:Hf.
+  destruct (second_pass c pns observed prsA clA) as [prs3 st3] eqn:Hs2.
+  destruct prs3 as [|l3 rest3]; [discriminate|].
+  destruct (set_condition (hr_status (pr_resp l3)) "Updated" (rollout_condition st3 (rev_name (pr_rev l3))))
+    as [status'|]; [|discriminate].
+  injection Hsync as <- <-.
+  apply sync_revision_claims_ok in Hc. destruct Hc as [Sl Ss Sm Sn Sc Snd].
+  (* the invariant holds after the claims pass *)
+  assert (Hinv : inv (pr_desired latest) prs1 cl1).
+  { constructor.
+    - intros k'. apply excl_of_count, Hcount.
+    - intros k' j Hk'. destruct (Sn k' j Hk') as [H|(_ & _ & p' & Hp & Hl)]; [discriminate|].
+      rewrite Nat.sub_0_r in Hp. eauto.
+    - exact Sc.
+    - intros p Hin. unfold all_simple in Hsimple. rewrite forallb_forall in Hsimple. apply Hsimple, Hin. }
+  destruct prs1 as [|latest1 rest1]; [discriminate|].
+  destruct (Ss 0 latest1 eq_refl) as (p0 & Hp0 & _ & _ & Hdes & _).
+  cbn [nth_error] in Hp0. injection Hp0 as <-.
+  rewrite first_pass_eq, Hdes in Hf.
+  destruct (fp_fold_inv c pns observed (pr_desired latest) (pr_desired latest) _ _ _ _
+              (fun e H => H) Hinv ltac:(discriminate) Hf) as [HinvA HneA].
+  pose proof (second_pass_excl _ _ _ _ _ _ _ Hs2 (iv_simple _ _ _ HinvA) (iv_excl _ _ _ HinvA) k) as Hex3.
+  apply count_of_excl in Hex3.
+  cbn [prune]. unfold count_listing in *. cbn [filter] in *.
+  change (listsP (mkPrev (pr_parent l3) (pr_rev l3)
+            (mkHR status' (hr_children (pr_resp l3)) (hr_resync (pr_resp l3)) (hr_finalized (pr_resp l3)))
+            (pr_desired l3)) k) with (listsP l3 k).
+  pose proof (count_filter_le (fun p => negb (Nat.eqb (count_children (pr_rev p)) 0)) rest3 k) as Hle.
+  unfold count_listing in Hle.
+  destruct (listsP l3 k); cbn [List.length] in *; lia.
+Qed.
+
+(* the provisos are satisfiable: the side condition of items 1-2 holds of an ordinary
+   configuration, and the hypotheses of the item-3 theorem hold when the older revision
+   lists only what the latest does not (r0: [a], r1': [b]) *)
+Example C09_rev_res_separate_ok : rev_res_separate cx9_cfg = true.
+Proof. vm_compute. reflexivity. Qed.
+
+Definition cx9_r1' : revision := mkRevision (cx9_revobj "r1") (JObj []) [mkRck "" "Thing" ["b"]].
+Definition cx9_prs' : list prev := [mkPrev JNull cx9_r0 cx9_resp cx9_ds; mkPrev JNull cx9_r1' cx9_resp cx9_ds].
+
+Example C09_unique_claim_hypotheses_ok :
+  let prs1 := fst (sync_revision_claims cx9_cfg cx9_ds 0 cx9_prs' []) in
+  all_simple prs1 = true /\
+  count_listing prs1 ("", "Thing", "a") = 1 /\ count_listing prs1 ("", "Thing", "b") = 1.
+Proof. vm_compute. repeat split. Qed.
+
 Print Assumptions C09_revisions_before_children.
 Print Assumptions C09_revisions_before_children_run.
 Print Assumptions C09_prelude_no_content_write.
@@ -482,3 +797,10 @@ Print Assumptions C09_manage_revisions_stops.
 Print Assumptions C09_failed_revision_aborts_manage.
 Print Assumptions C09_failed_revision_no_children.
 Print Assumptions C09_failed_revision_no_children_run.
+Print Assumptions C09_claims_after_sync_revision_claims.
+Print Assumptions C09_first_claimant_wins.
+Print Assumptions C09_claims_not_exclusive.
+Print Assumptions C09_stale_listing_survives_sync.
+Print Assumptions C09_revision_names_unique_claim_partial.
+Print Assumptions C09_only_ownership_edits_before_hooks.
+Print Assumptions C09_updates_before_hooks_are_ownership_edits.
